@@ -492,9 +492,19 @@ func wellFormed(b []byte) error {
 	}
 	depth := 0
 	for _, t := range toks {
-		switch t.(type) {
+		switch t := t.(type) {
 		case xml.StartElement:
 			depth++
+			// encoding/xml's decoder is lenient where XML 1.0 (+ Namespaces) is not: it hands
+			// out a start tag that repeats an attribute.  A conforming parser refuses the
+			// document ("duplicate attribute"), so does this oracle: the names of the attributes
+			// of one start tag (after namespace resolution, declarations included) are distinct.
+			if a, dup := dupAttr(t.Attr); dup {
+				return fmt.Errorf("start tag <%s> repeats the attribute %q", t.Name.Local, strings.TrimPrefix(a.Space+":"+a.Local, ":"))
+			}
+			if t.Name.Local == "" {
+				return fmt.Errorf("start tag without a name")
+			}
 		case xml.EndElement:
 			depth--
 			if depth < 0 {
@@ -506,6 +516,18 @@ func wellFormed(b []byte) error {
 		return fmt.Errorf("%d elements left open", depth)
 	}
 	return nil
+}
+
+// dupAttr: the first attribute name that occurs twice in one start tag.
+func dupAttr(attrs []xml.Attr) (xml.Name, bool) {
+	for i, a := range attrs {
+		for _, b := range attrs[:i] {
+			if a.Name == b.Name {
+				return a.Name, true
+			}
+		}
+	}
+	return xml.Name{}, false
 }
 
 // balancedToks is the harness' own nesting check of a raw token stream.
